@@ -44,7 +44,7 @@ func (r *rec) try(opTerm, label string, f func() string) {
 		return
 	}
 	var term string
-	p, val := vhlib.Recover(func() { term = f() })
+	p, val := guard(label, append([]string{}, r.desc...), func() { term = f() })
 	if p {
 		r.add(fmt.Sprintf("C1 (%s) RPanic", opTerm), label)
 		r.desc = append(r.desc, fmt.Sprintf("PANIC in %s: %v", label, val))
@@ -143,20 +143,24 @@ func (x *mapRun) battery(ps []int) {
 
 func (x *mapRun) keysSafe() []int {
 	var ks []int
-	vhlib.Recover(func() { ks = x.m.Keys() })
+	guard("Keys", append([]string{}, x.r.desc...), func() { ks = x.m.Keys() })
 	return ks
 }
 
-func emitCase(w *vhlib.Writer, kindCoq, label string, r *rec, nontrivial bool) {
-	term := fmt.Sprintf("{| c_kind := %s; c_steps := %s |}", kindCoq, coqList(r.steps))
-	w.Case(term, label, nontrivial, r.labels, map[string]interface{}{"container": label, "ops": r.desc})
+func emitCase(w *vhlib.Writer, kindCoq string, c cmpCfg, label string, r *rec, nontrivial bool) {
+	term := fmt.Sprintf("{| c_kind := %s; c_cmp := %s; c_steps := %s |}", kindCoq, c.coq, coqList(r.steps))
+	w.Case(term, label, nontrivial, r.labels, map[string]interface{}{"container": label, "comparator": c.coq, "ops": r.desc})
+	w.Dist["comparator "+c.coq]++
 	spread.tick()
 }
 
 // random profile on an ordered map: after every mutator Get(key) and Size; full battery at checkpoints
 func mapProfileCase(w *vhlib.Writer, k mapKind, prof string, rng *vhlib.Rng, n, probesN int) {
+	curLabel = k.label + "/" + prof
 	ops := profile(prof, rng, n)
-	m := k.mk()
+	cfg := pickCfg(rng, maxAbsKey(ops, false))
+	ops = spreadOps(ops, cfg, false)
+	m := k.mk(cfg.f)
 	x := &mapRun{k: k, m: m, r: &rec{}}
 	every := len(ops)/3 + 1
 	muts := 0
@@ -178,15 +182,18 @@ func mapProfileCase(w *vhlib.Writer, k mapKind, prof string, rng *vhlib.Rng, n, 
 			break
 		}
 	}
-	emitCase(w, k.coq, k.label+"/"+prof, x.r, muts >= 2)
+	emitCase(w, k.coq, cfg, k.label+"/"+prof, x.r, muts >= 2)
 }
 
 // bounded-exhaustive: BFS over distinct states (canonical key = shape dump when available, else contents),
 // every next operation from every state; one case per transition = path, operation, full battery
 func mapExhaustive(w *vhlib.Writer, k mapKind, keyFn func(OMap) string, U int, maxStates int) int {
 	type st struct{ path []mop }
+	curLabel = k.label + "/exhaustive"
+	// states are discovered on a reference instance (built-in comparator, dense keys); the recorded run of each
+	// state uses the next comparator shape / key spread of the rotation
 	build := func(path []mop) OMap {
-		m := k.mk()
+		m := k.mk(plainCfg.f)
 		for _, o := range path {
 			if o.kind == 0 {
 				m.Put(o.k, o.v)
@@ -196,33 +203,44 @@ func mapExhaustive(w *vhlib.Writer, k mapKind, keyFn func(OMap) string, U int, m
 		}
 		return m
 	}
-	probes := make([]int, 0, 2*U+1)
-	for p := 1; p <= 2*U+1; p++ {
-		probes = append(probes, p)
-	}
 	seen := map[string]bool{keyFn(build(nil)): true}
 	queue := []st{{nil}}
 	trans := 0
+	stateNo := 0
 	for len(queue) > 0 {
 		s := queue[0]
 		queue = queue[1:]
+		cfg := cmpCfgs[stateNo%len(cmpCfgs)]
+		stateNo++
+		probes := make([]int, 0, 2*U+1)
+		for p := 1; p <= 2*U+1; p++ {
+			probes = append(probes, p*cfg.spread)
+		}
 		for kk := 1; kk <= U; kk++ {
 			for _, kind := range []int{0, 1} {
 				o := mop{kind, 2 * kk, 100*(len(s.path)+1) + 2*kk}
-				x := &mapRun{k: k, m: k.mk(), r: &rec{}}
-				for _, po := range s.path {
+				x := &mapRun{k: k, m: k.mk(cfg.f), r: &rec{}}
+				for _, po := range spreadOps(s.path, cfg, false) {
 					x.apply(po)
 				}
-				x.apply(o)
+				x.apply(spreadOps([]mop{o}, cfg, false)[0])
 				if !x.r.dead {
 					x.battery(probes)
 				}
 				trans++
-				emitCase(w, k.coq, k.label+"/exhaustive", x.r, true)
-				if x.r.dead {
+				emitCase(w, k.coq, cfg, k.label+"/exhaustive", x.r, true)
+				var key string
+				if p, _ := guard("reference replay", opWords(append(append([]mop{}, s.path...), o)), func() {
+					ref := build(s.path)
+					if o.kind == 0 {
+						ref.Put(o.k, o.v)
+					} else {
+						ref.Remove(o.k)
+					}
+					key = keyFn(ref)
+				}); p {
 					continue
 				}
-				key := keyFn(x.m)
 				if !seen[key] && len(seen) < maxStates {
 					seen[key] = true
 					np := append(append([]mop{}, s.path...), o)
@@ -244,13 +262,19 @@ func contentsKey(m OMap) string {
 
 // ---------------- tree set ----------------
 func setCase(w *vhlib.Writer, safe bool, prof string, rng *vhlib.Rng, n int, malformed bool) {
-	s := newSet(safe)
+	ops := profile(prof, rng, n)
+	cfg := pickCfg(rng, maxAbsKey(ops, false))
+	ops = spreadOps(ops, cfg, false)
+	s := newSet(safe, cfg.f)
 	label := "treeset"
 	if safe {
 		label = "treeset-safe"
 	}
+	curLabel = label + "/" + prof
+	if malformed {
+		curLabel = label + "/malformed"
+	}
 	r := &rec{}
-	ops := profile(prof, rng, n)
 	batchAdd, batchRem := []int{}, []int{}
 	flush := func() {
 		if len(batchAdd) > 0 || malformed && rng.Chance(1, 6) {
@@ -296,7 +320,14 @@ func setCase(w *vhlib.Writer, safe bool, prof string, rng *vhlib.Rng, n int, mal
 			}
 			return fmt.Sprintf("CContains %s %s", zl(ps), bl(bs))
 		})
-		// multi-argument Contains: all present / one absent / empty argument list
+		// multi-argument Contains: all present / one absent / empty argument list / a present item repeated
+		if len(vals) > 0 {
+			v := vals[rng.Intn(len(vals))]
+			rep := []int{v, v, v}
+			r.try("GS (SContains "+zl(rep)+")", "Contains", func() string {
+				return fmt.Sprintf("C1 (GS (SContains %s)) (RS (SOBool %s))", zl(rep), vhlib.Bool(s.Contains(rep...)))
+			})
+		}
 		for j := 0; j < 3; j++ {
 			var q []int
 			for i := 0; i < j+1 && len(vals) > 0; i++ {
@@ -350,16 +381,16 @@ func setCase(w *vhlib.Writer, safe bool, prof string, rng *vhlib.Rng, n int, mal
 	if malformed {
 		lab = label + "/malformed"
 	}
-	emitCase(w, "KTSet", lab, r, len(ops) >= 2)
+	emitCase(w, "KTSet", cfg, lab, r, len(ops) >= 2)
 }
 
 // ---------------- tree bidi map ----------------
-func bidiCase(w *vhlib.Writer, safe bool, prof string, rng *vhlib.Rng, n int, exhaustivePath []mop) {
-	b := newBidi(safe)
+func bidiCase(w *vhlib.Writer, safe bool, prof string, rng *vhlib.Rng, n int, exhaustivePath []mop, fixed *cmpCfg) {
 	label := "treebidimap"
 	if safe {
 		label = "treebidimap-safe"
 	}
+	curLabel = label + "/" + prof
 	r := &rec{}
 	var ops []mop
 	if exhaustivePath != nil {
@@ -374,6 +405,15 @@ func bidiCase(w *vhlib.Writer, safe bool, prof string, rng *vhlib.Rng, n int, ex
 			}
 		}
 	}
+	// keys AND values go through the comparator in a bidi-map: both are spread
+	var cfg cmpCfg
+	if fixed != nil {
+		cfg = *fixed
+	} else {
+		cfg = pickCfg(rng, maxAbsKey(ops, true))
+	}
+	ops = spreadOps(ops, cfg, true)
+	b := newBidi(safe, cfg.f)
 	battery := func() {
 		var ks, vs []int
 		r.try("GB BKeys", "Keys", func() string { ks = b.Keys(); return fmt.Sprintf("C1 (GB BKeys) (RB (BOKeys %s))", zl(ks)) })
@@ -431,7 +471,7 @@ func bidiCase(w *vhlib.Writer, safe bool, prof string, rng *vhlib.Rng, n int, ex
 		}
 	}
 	lab := label + "/" + prof
-	emitCase(w, "KBidi", lab, r, len(ops) >= 2)
+	emitCase(w, "KBidi", cfg, lab, r, len(ops) >= 2)
 }
 
 // all Put words of a given length over keys {1..u} x values {1..u}, each followed by a Remove of every key
@@ -450,9 +490,17 @@ func bidiExhaustive(w *vhlib.Writer, safe bool, rng *vhlib.Rng, u, length int) {
 			path = append(path, mop{0, 1 + c/u, 501 + c%u})
 		}
 		path = append(path, mop{1, 1 + word%u, 0})
-		bidiCase(w, safe, "exhaustive", rng, 0, path)
+		cfg := cmpCfgs[word%len(cmpCfgs)]
+		bidiCase(w, safe, "exhaustive", rng, 0, path, &cfg)
 	}
 }
+
+const c01Rule = "one case = one container (red-black tree, AVL tree, B-tree of order m, treemap, treeset, treebidimap, plain or Safe* wrapper) " +
+	"and a sequence of API calls with everything they returned; exhaustive cases = every distinct reachable state over a small key universe x every " +
+	"next Put/Remove followed by the full query battery (Get/Floor/Ceiling of every key and gap, Size, Empty, Keys, Values, Left/Right or Min/Max, GetKey); " +
+	"profile cases = seeded sequences (ascending, descending, zig-zag, duplicate-heavy, delete-heavy, churn, zero values, extreme integers, clear-reuse, " +
+	"malformed = empty/nil batches) with Get+Size after every mutation and the battery at checkpoints; distinct = distinct case terms; " +
+	"non-trivial = at least two mutating calls"
 
 func runC01(o vhlib.Opts) {
 	rng := vhlib.NewRng(o.Seed)
@@ -460,8 +508,9 @@ func runC01(o vhlib.Opts) {
 	if o.Thorough() {
 		shardSize = 100
 	}
-	w := vhlib.NewWriter(o.Out, "From VF Require Import Common.Base C01.SortedMap C01.Check.\nLocal Open Scope Z_scope.", "case", "mismatches", shardSize)
+	w := vhlib.NewWriter(o.Out, "From VF Require Import Common.Base C01.CmpSel C01.SortedMap C01.Check.\nLocal Open Scope Z_scope.", "case", "mismatches", shardSize)
 	thorough := o.Thorough()
+	startWatchdog(w, o, c01Rule)
 
 	kinds := mapKinds()
 	orders := []int{3, 4, 5, 6, 7, 8, 9, 16, 64}
@@ -485,7 +534,7 @@ func runC01(o vhlib.Opts) {
 		}
 	}
 	// 1. bounded-exhaustive: every distinct state x every next operation
-	exU := map[string]int{"rb": 5, "avl": 5, "bt3": 5, "bt4": 5, "bt5": 6, "bt6": 6, "treemap": 4, "rb-safe": 3, "avl-safe": 3, "bt3-safe": 4, "treemap-safe": 3}
+	exU := map[string]int{"rb": 5, "avl": 5, "bt3": 5, "bt4": 5, "bt5": 6, "bt6": 5, "treemap": 4, "rb-safe": 3, "avl-safe": 3, "bt3-safe": 4, "treemap-safe": 3}
 	if thorough {
 		exU = map[string]int{"rb": 7, "avl": 7, "bt3": 8, "bt4": 8, "bt5": 8, "bt6": 8, "bt7": 8, "treemap": 6, "rb-safe": 5, "avl-safe": 5, "bt3-safe": 6, "bt5-safe": 6, "treemap-safe": 5}
 	}
@@ -531,7 +580,7 @@ func runC01(o vhlib.Opts) {
 		for _, prof := range profileNames {
 			for rep := 0; rep < reps; rep++ {
 				setCase(w, safe, prof, seedFor("treeset", prof, rep), n, false)
-				bidiCase(w, safe, prof, seedFor("treebidimap", prof, rep), n, nil)
+				bidiCase(w, safe, prof, seedFor("treebidimap", prof, rep), n, nil, nil)
 			}
 		}
 		for rep := 0; rep < 4*reps; rep++ {
@@ -546,12 +595,7 @@ func runC01(o vhlib.Opts) {
 		bidiExhaustive(w, true, rng, 2, 3)
 	}
 	spread.drain()
-	w.Close(o, "one case = one container (red-black tree, AVL tree, B-tree of order m, treemap, treeset, treebidimap, plain or Safe* wrapper) "+
-		"and a sequence of API calls with everything they returned; exhaustive cases = every distinct reachable state over a small key universe x every "+
-		"next Put/Remove followed by the full query battery (Get/Floor/Ceiling of every key and gap, Size, Empty, Keys, Values, Left/Right or Min/Max, GetKey); "+
-		"profile cases = seeded sequences (ascending, descending, zig-zag, duplicate-heavy, delete-heavy, churn, zero values, extreme integers, clear-reuse, "+
-		"malformed = empty/nil batches) with Get+Size after every mutation and the battery at checkpoints; distinct = distinct case terms; "+
-		"non-trivial = at least two mutating calls")
+	w.Close(o, c01Rule)
 }
 
 // canonical state key: the shape dump where the tree is reachable, else the contents
